@@ -280,6 +280,12 @@ func interpCases(c *Ctx, n int, tweak func(cfg *GenCfg, i int), post func(s *Sce
 		case "varReuseSends":
 			prog = g.varReuseProgram(2, true)
 			c.count("directed:varReuseSends")
+		case "capVarReuse":
+			prog = g.capVarReuseProgram(cfg.OneSend)
+			c.count("directed:capVarReuse")
+		case "originOtherAsset":
+			prog = g.originOtherAssetProgram(cfg.OneSend)
+			c.count("directed:originOtherAsset")
 		default:
 			prog = g.Program()
 		}
@@ -410,6 +416,12 @@ func init() {
 				cfg.Directed = "saveThenUse"
 			case 9:
 				cfg.Directed = "repeatDraw"
+			case 7:
+				cfg.Directed = "capVarReuse"
+			case 5:
+				if i%20 == 5 {
+					cfg.Directed = "originOtherAsset"
+				}
 			}
 		}, nil)
 	}
@@ -428,6 +440,12 @@ func init() {
 			cfg.SmallPool = i%3 == 0
 			cfg.SelfLead = i%5 == 3
 			cfg.FreePrefix = i%5 == 1
+			switch i % 20 {
+			case 7:
+				cfg.Directed = "capVarReuse"
+			case 12, 17:
+				cfg.Directed = "originOtherAsset"
+			}
 		}, nil)
 	}
 	registry["C05"] = func(c *Ctx) {
